@@ -107,11 +107,12 @@ type scfg struct {
 	Senders    []int // datagrams (one event each) per sender thread
 	Cloud      bool
 	Waiter     bool
+	Cancel     bool `json:",omitempty"` // one more event arrives the way an HTTP request delivers it - with its own context - and that context is cancelled at any point (the client went away)
 	Timeouts   int `json:",omitempty"` // the first SendEvent calls fail with context.DeadlineExceeded (what an HTTP backend returns when its retries run into the per-event deadline)
 }
 
 func (c scfg) String() string {
-	return fmt.Sprintf("B%d-c%d-s%v-cloud%v-w%v", c.Backends, c.Concurrent, c.Senders, c.Cloud, c.Waiter) + map[bool]string{true: fmt.Sprintf("-timeouts%d", c.Timeouts)}[c.Timeouts > 0]
+	return fmt.Sprintf("B%d-c%d-s%v-cloud%v-w%v", c.Backends, c.Concurrent, c.Senders, c.Cloud, c.Waiter) + map[bool]string{true: fmt.Sprintf("-timeouts%d", c.Timeouts)}[c.Timeouts > 0] + map[bool]string{true: "-cancel"}[c.Cancel]
 }
 
 type run struct {
@@ -194,13 +195,24 @@ func sbody(c scfg, r *run) func(*vsched.Exec) {
 			})
 		}
 		r.sent = id
+		producers := len(c.Senders)
+		if c.Cancel {
+			producers++
+			cctx, cancel := context.WithCancel(ctx)
+			vsched.GoNamed("client", func() {
+				head.DispatchEvent(cctx, &gostatsd.Event{Title: "x0", Text: "from a request", Source: ip})
+				vsched.Access(arrObj, true, "client-done")
+				finished++
+			})
+			vsched.GoNamed("client-gone", func() { vsched.Cancel(cancel) })
+		}
 		if c.Waiter {
 			vsched.GoNamed("waiter", func() {
-				vsched.SyncOp(arrObj, false, "all-sent", func() bool { return finished == len(c.Senders) })
+				vsched.SyncOp(arrObj, false, "all-sent", func() bool { return finished == producers })
 				head.WaitForEvents()
 				vsched.Access(r.logObj, false, "wait-returned")
-				if r.totalDone != r.sent*c.Backends {
-					r.waitBad = fmt.Sprintf("WaitForEvents returned while %d of %d SendEvent calls had returned", r.totalDone, r.sent*c.Backends)
+				if r.totalDone < r.sent*c.Backends || r.totalDone != r.totalBegun {
+					r.waitBad = fmt.Sprintf("WaitForEvents returned while %d of %d SendEvent calls had returned (%d begun)", r.totalDone, r.sent*c.Backends, r.totalBegun)
 				}
 				r.waitRet = true
 			})
@@ -288,7 +300,13 @@ func scheck(c scfg, r *run, outcomes map[string]struct{}) func(*vsched.Exec, vsc
 					return "not-exactly-once", fmt.Sprintf("event %s was delivered %d times to backend %s", t, seen[t], b.name)
 				}
 			}
+			if seen["x0"] > 1 {
+				return "not-exactly-once", fmt.Sprintf("the event of the cancelled request was delivered %d times to backend %s", seen["x0"], b.name)
+			}
 			for _, g := range b.got {
+				if g.Title == "x0" {
+					continue
+				}
 				var id int
 				fmt.Sscanf(g.Title, "e%d", &id)
 				cloud := 0
@@ -314,12 +332,15 @@ func scheck(c scfg, r *run, outcomes map[string]struct{}) func(*vsched.Exec, vsc
 
 func sconfigs() []scfg {
 	cs := []scfg{
-		{1, 1, []int{1, 1}, false, true, 0}, {2, 1, []int{1}, false, true, 0}, {2, 2, []int{1}, true, true, 0}, {1, 1, []int{2}, true, true, 0}, {0, 1, []int{1}, false, true, 0},
+		{1, 1, []int{1, 1}, false, true, false, 0}, {2, 1, []int{1}, false, true, false, 0}, {2, 2, []int{1}, true, true, false, 0}, {1, 1, []int{2}, true, true, false, 0}, {0, 1, []int{1}, false, true, false, 0},
 		// as many failed sends as there are event slots, then one more event
-		{1, 1, []int{2}, false, true, 1}, {1, 2, []int{3}, false, false, 2},
+		{1, 1, []int{2}, false, true, false, 1}, {1, 2, []int{3}, false, false, false, 2},
+		// an event whose request context ends while it waits for a free event slot (or at any other point)
+		{Backends: 1, Concurrent: 1, Senders: []int{1}, Waiter: true, Cancel: true}, {Backends: 2, Concurrent: 1, Senders: []int{}, Waiter: true, Cancel: true},
 	}
 	if vrt.Thorough() {
-		cs = append(cs, scfg{2, 1, []int{2}, false, true, 0}, scfg{2, 2, []int{1, 1}, true, true, 0}, scfg{2, 1, []int{2, 1}, false, true, 0}, scfg{1, 2, []int{2, 2}, true, false, 0})
+		cs = append(cs, scfg{2, 1, []int{2}, false, true, false, 0}, scfg{2, 2, []int{1, 1}, true, true, false, 0}, scfg{2, 1, []int{2, 1}, false, true, false, 0}, scfg{1, 2, []int{2, 2}, true, false, false, 0},
+			scfg{Backends: 2, Concurrent: 1, Senders: []int{1}, Waiter: true, Cancel: true}, scfg{Backends: 1, Concurrent: 2, Senders: []int{2}, Cloud: true, Waiter: true, Cancel: true})
 	}
 	return cs
 }
